@@ -178,6 +178,7 @@ type Client struct {
 	// observations
 	Responses []*ClientResponse
 	EOF       bool
+	Reset     bool // the connection was closed by a reset rather than a FIN
 	Err       error
 	EOFTick   int
 	EOFAt     int64
@@ -240,7 +241,20 @@ func (c *Client) ReadResponse(method string) *ClientResponse {
 	return cr
 }
 
+// IsReset reports a connection reset (the peer closed while unread data was queued for it: TCP sends RST).
+func IsReset(err error) bool {
+	return err != nil && (strings.Contains(err.Error(), "connection reset") || strings.Contains(err.Error(), "broken pipe"))
+}
+
 func (c *Client) noteErr(err error) {
+	if IsReset(err) {
+		// the proxy closed the connection while bytes we had sent were still unread: closed, like EOF
+		c.EOF = true
+		c.Reset = true
+		c.EOFTick = vrt.Tick()
+		c.EOFAt = int64(vrt.Now())
+		return
+	}
 	if err == io.EOF || err == io.ErrUnexpectedEOF {
 		c.EOF = true
 		c.EOFTick = vrt.Tick()
